@@ -254,7 +254,16 @@ def check_edits(ctx, text, kw, fail, positions=None, budget=None):
                 res = make_recorder(_v.ASTVisitor, 0, trace, {id(x): ("skip", None)}).visit(doc)
                 exp_keys = base_keys[:i + 1] + base_keys[j:]
                 if not (res is doc and doc.to_dict() == before and [key(e) for e in trace] == exp_keys):
-                    fail("skip-not-local:%s" % kind(x), "SkipNode at a %s suppresses more or less than its children and its leave" % kind(x),
+                    inner = {id(e[-1]) for e in tr0[i + 1:j - 1]}
+                    if res is not doc or doc.to_dict() != before:
+                        cause = "tree-changed"
+                    elif any(e[-2] == "leave" and e[-1] is x for e in trace):
+                        cause = "leave-called"
+                    elif any(id(e[-1]) in inner for e in trace):
+                        cause = "children-visited"
+                    else:
+                        cause = "other-calls-differ"
+                    fail("skip-not-local:%s" % cause, "SkipNode at a node (%s) suppresses more or less than its children and its leave: %s" % (kind(x), cause),
                          {"edit": "skip", "pos": pos})
             else:
                 if act == "replace":
